@@ -208,6 +208,8 @@ def size_boundary_cases(rng, spec, idx0):
     for target, with_opt in ((65534, 1), (65535, 1), (65536, 1), (65537, 1), (65546, 1), (65534, 0), (65535, 0),
                              (65506, 2), (65507, 2), (65508, 2), (65530, 2)):
         ls = ["tcp"] + rng.sample(["gnet", "tls", "quic", "http-post", "fasthttp-post", "https-post"], 3)
+        if target > 65535:
+            ls = ["tcp", "gnet", "tls", "quic", "http-post", "fasthttp-post", "https-post"]    # beyond the limit: EVERY listener kind
         if with_opt == 2:
             # UDP: a client advertising 65535 octets; the largest datagram payload the socket can send is 65507
             ls, with_opt = ["udp", "udp"], 1
